@@ -715,3 +715,39 @@ func (ix *PkgIndex) pureDelegate(fn *FuncInfo) *FuncInfo {
 	}
 	return t
 }
+
+// sanitisedAt: does variable v hold, at vertex x on every path, a value produced by a sanitiser call (isSan) — i.e. the last
+// assignment to v on every path is `v = san(…)` and its address was not taken since?
+func sanitisedAt(g *FG, info *types.Info, v types.Object, x *GNode, isSan func(ast.Expr) bool) bool {
+	facts := g.MustFlow(nil, nil, func(y *GNode, in FactSet) FactSet {
+		if y.N == nil {
+			return in
+		}
+		inspectNoLit(y.N, func(m ast.Node) bool {
+			switch s := m.(type) {
+			case *ast.AssignStmt:
+				for i, l := range s.Lhs {
+					if sameVar(info, l, v) {
+						delete(in, "san")
+						if len(s.Lhs) == len(s.Rhs) && isSan(s.Rhs[i]) {
+							in["san"] = true
+						}
+					}
+				}
+			case *ast.UnaryExpr:
+				if s.Op == token.AND && sameVar(info, s.X, v) {
+					delete(in, "san")
+				}
+			case *ast.RangeStmt:
+				for _, e := range []ast.Expr{s.Key, s.Value} {
+					if e != nil && sameVar(info, e, v) {
+						delete(in, "san")
+					}
+				}
+			}
+			return true
+		})
+		return in
+	})
+	return facts[x]["san"]
+}
